@@ -89,6 +89,10 @@ BASIC = [
                     Rule('T', S(Str('('), Asg('n', '=', ID), Asg('kids', '*=', Ref('T')), Str(')')))]),
     G('comment-line', [Rule('M', Asg('xs', '+=', INT)), COMMENT]),
     G('comment-block', [Rule('M', S(Str('a'), Asg('xs', '+=', ID))), COMMENT_BLOCK]),
+    # the Comment rule given as a reference to another rule / as a choice of rules
+    G('comment-rule-ref', [Rule('M', Asg('xs', '+=', INT)), Rule('Comment', Ref('CLine')), Rule('CLine', Re(r'//.*?$'))]),
+    G('comment-rule-choice', [Rule('M', Asg('xs', '+=', INT)), Rule('Comment', A(Ref('CLine'), Ref('CHash'))),
+                              Rule('CLine', Re(r'//.*?$')), Rule('CHash', Re(r'#.*?$'))]),
     G('noskipws-rule', [Rule('M', Asg('ps', '+=', Ref('P'))),
                         Rule('P', S(Asg('a', '=', ID), Str('.'), Asg('b', '=', ID)), skipws=False)]),
     G('noskipws-inherit', [Rule('M', Asg('ps', '+=', Ref('P'))),
@@ -203,6 +207,20 @@ KINDS = [
     G('kinds-cycle', [Rule('M', Asg('es', '+=', Ref('A'))),
                       Rule('A', A(Ref('B'), Ref('N'))),
                       Rule('B', A(S(Str('('), Ref('A'), Str(')')), Ref('Q'))), N_, Q_], tags=['kinds']),
+    # the first reference of an abstract alternative may yield nothing (optional, predicate, suppressed):
+    # the object then comes from a later reference
+    G('kinds-optional-first-ref', [Rule('M', Asg('es', '+=', Ref('A'))),
+                                   Rule('A', A(S(Opt(Ref('Q')), Ref('N')), Ref('R'))), N_, Q_,
+                                   Rule('R', S(Str('r'), Asg('z', '=', ID)))], tags=['kinds']),
+    G('kinds-predicate-first-ref', [Rule('M', Asg('es', '+=', Ref('A'))),
+                                    Rule('A', A(S(Not_(Ref('R')), Ref('N')), Ref('R'))), N_,
+                                    Rule('R', S(Str('r'), Asg('z', '=', ID)))], tags=['kinds']),
+    G('kinds-suppressed-first-ref', [Rule('M', Asg('es', '+=', Ref('A'))),
+                                     Rule('A', A(S(Sup(Ref('Q')), Ref('N')), Ref('R'))), N_, Q_,
+                                     Rule('R', S(Str('r'), Asg('z', '=', ID)))], tags=['kinds']),
+    # an alias-like rule of a rule that refers back to it (recursion through the alias)
+    G('kinds-alias-of-recursive', [Rule('M', Asg('e', '=', Ref('A'))), Rule('A', Ref('B')),
+                                   Rule('B', A(S(Str('('), Ref('A'), Str(')')), Ref('Q'))), Q_], tags=['kinds']),
     # the rule kind of P is only known in a later pass of the rule-type fixpoint
     G('kinds-paren-cycle', [Rule('M', Asg('e', '=', Ref('E'))), Rule('E', A(Ref('P'), Ref('V'))),
                             Rule('P', S(Str('('), Ref('E'), Str(')'))),
